@@ -11,13 +11,10 @@ class CM:
   def __enter__(self): return self
   def __exit__(self, *a): return None
 def cm(a, b): return CM()
-def deco(a):
-  def w(f): return f
-  return w
+def deco(a): return lambda f: f
 class Obj:
   def m(self, a): return self
-obj = Obj()
-lst = [1, 2]
+obj = Obj(); lst = [1, 2]
 '''
 
 # (expression, error class it provokes or None)
